@@ -318,6 +318,12 @@ def rewrites(c, rng, full=False):
         m = re.search(r"^(filter )(.*)$", whole, re.M)
         if m:
             out.append(("beta-identity-fn", policy, decl + "\n" + defs + lets + whole[:m.start()] + f"filter ({fn['id_f']} {m.group(2)})" + whole[m.end():] + "\n"))
+    # T2 beta with a curried function (a function whose body is a function whose body is the expression): piped / applied in two steps
+    cur_defs = "let sub_c9 = b9 -> (a9 -> a9 - b9)\nlet mul_c9 = b9 -> (a9 -> a9 * b9)\nlet add_c9 = b9 -> (a9 -> a9 + b9)\n"
+    for kind, pat, rep in [("beta-curried-piped", rf"\({V} - {V}\)", r"(\1 | sub_c9 \2)"), ("beta-curried-applied", rf"\({V} \* {V}\)", r"((mul_c9 \2) \1)"),
+                           ("beta-curried-piped-constant", rf"\({V} \+ ([0-9])\)", r"(\1 | add_c9 \2)"), ("beta-curried-applied-add", rf"\({V} \+ {V}\)", r"((add_c9 \2) \1)")]:
+        if re.search(pat, whole):
+            out.append((kind, "fresh", decl + "\n" + cur_defs + lets + re.sub(pat, rep, whole, count=rng.choice([1, 0])) + "\n"))
     # T5 moving let-tables into modules and referring to them by path / renaming them, under every name policy
     lv = let_variants(c, decl, rng)
     if not full and len(lv) > 5:
